@@ -687,6 +687,13 @@ with SqlImpl.impl_store.impl_manager as impl:
     def _xor(lhs, rhs):
         return lhs != rhs
 
+    @impl(ops.bool_invert)
+    def _invert(x):
+        # On dialects without a native boolean type `~x` is rendered as `x = 0`.
+        # Without parentheses this binds wrongly as an operand of a comparison
+        # (`a = b = 0` instead of `a = (b = 0)`).
+        return sqa.sql.elements.Grouping(~x)
+
     @impl(ops.neg)
     def _neg(x):
         # Parenthesize the operand: the negation of a negative literal would
